@@ -22,6 +22,7 @@ from sc3.synth.ugen import ChannelList, UGen, OutputProxy, MulAdd, BasicOpUGen
 from sc3.synth.ugens import oscillators as ocl, noise as nse, line as lne, pan as pan_, inout as iou, \
     filter as flr, trig as trg, foscillators as fos
 import operator
+from sc3.base import utils as utl
 
 CLASSES = {'SinOsc': ocl.SinOsc, 'Saw': fos.Saw, 'LFNoise0': nse.LFNoise0, 'Line': lne.Line,
            'Impulse': ocl.Impulse, 'Pan2': pan_.Pan2, 'LFSaw': ocl.LFSaw, 'XLine': lne.XLine,
@@ -34,12 +35,20 @@ class Abort(Exception):
     pass
 
 
-def build_value(t, pre):
+class MyList(list):
+    """a list subclass that is not a ChannelList: isinstance(x, list) holds, type(x) is list does not"""
+
+
+def build_value(t, pre, memo=None):
     k = t[0]
     if k == 'K':
         return int(t[1])
     if k == 'F':
         return float(t[1])
+    if k == 'B':
+        return bool(t[1])
+    if k == 'Z':
+        return -0.0
     if k == 'U':
         v = pre[t[1]]
         if isinstance(v, list):
@@ -49,13 +58,25 @@ def build_value(t, pre):
         return str(t[1])
     if k == 'N':
         return None
-    if k == 'T':
-        return tuple(build_value(x, pre) for x in t[1])
-    if k == 'L':
-        return [build_value(x, pre) for x in t[1]]
-    if k == 'C':
-        return ChannelList([build_value(x, pre) for x in t[1]])
+    if k in ('T', 'L', 'C', 'M'):
+        key = json.dumps(t)
+        if memo is not None and key in memo:
+            return memo[key]           # the SAME object for equal sub-trees (aliasing)
+        xs = [build_value(x, pre, memo) for x in t[1]]
+        v = tuple(xs) if k == 'T' else xs if k == 'L' else ChannelList(xs) if k == 'C' else MyList(xs)
+        if memo is not None:
+            memo[key] = v
+        return v
     raise ValueError(t)
+
+
+def snap(v):
+    """structure of an argument object, to detect in-place mutation by the library"""
+    if isinstance(v, (list, tuple)):
+        return [type(v).__name__, id(v), [snap(x) for x in v]]
+    if isinstance(v, ugn.SynthObject):
+        return ['obj', id(v)]
+    return [type(v).__name__, repr(v)]
 
 
 def canon(v, index):
@@ -64,12 +85,12 @@ def canon(v, index):
     if isinstance(v, ugn.SynthObject):
         return ['U', index.get(id(v), -1), 0]
     if isinstance(v, bool):
-        return ['X', 'bool']
+        return ['K', int(v), 'b']
     if isinstance(v, int):
-        return ['K', v]
+        return ['K', v, 'i']
     if isinstance(v, float):
         if v == int(v):
-            return ['K', int(v)]
+            return ['K', int(v), 'z' if (v == 0 and str(v)[0] == '-') else 'f']
         return ['X', 'float:%r' % v]
     if isinstance(v, str):
         return ['S', v]
@@ -124,36 +145,56 @@ def make_prelude(spec):
     return pre
 
 
-def call(case, pre):
+def narop_fn(x, p, q):
+    return 100 * x + 10 * p + q
+
+
+def call(case, pre, bv=None):
     kind = case['kind']
-    bv = lambda t: build_value(t, pre)
+    if bv is None:
+        bv = lambda t: build_value(t, pre)
+    opt = lambda key: [bv(case[key])] if case.get(key) is not None else []
     if kind == 'ctor':
         cls = CLASSES[case['cls']]
         args = [bv(a) for a in case['args']]
-        kwargs = {k: bv(a) for k, a in case.get('kwargs', {}).items()}
+        kwargs = {k: bv(a) for k, a in sorted(case.get('kwargs', {}).items())}
         return getattr(cls, case['rate'])(*args, **kwargs)
     if kind in ('clbinop', 'clrbinop', 'ugenbinop', 'ugenrbinop'):
-        return OPS[case['op']](bv(case['a']), bv(case['b']))
+        a, b = bv(case['a']), bv(case['b'])
+        return OPS[case['op']](a, b)
     if kind == 'clunop':
         return -bv(case['a'])
     if kind == 'method':
-        return getattr(bv(case['self']), case['meth'])(*[bv(a) for a in case['args']])
+        recv = bv(case['self'])
+        return getattr(recv, case['meth'])(*[bv(a) for a in case['args']])
+    if kind == 'narop':
+        return utl.list_narop(narop_fn, bv(case['a']), *[bv(x) for x in case['args']])
     if kind == 'dup':
         return bv(case['self']).dup(case['n'])
     if kind == 'sum':
         return bv(case['self']).sum()
     if kind == 'poll':
-        return bv(case['self']).poll(bv(case['trig']), bv(case['label']), bv(case['tid']))
+        recv = bv(case['self'])
+        return recv.poll(bv(case['trig']), bv(case['label']), bv(case['tid']))
     if kind == 'dpoll':
-        return bv(case['self']).dpoll(bv(case['label']), bv(case['run']), bv(case['tid']))
+        recv = bv(case['self'])
+        return recv.dpoll(bv(case['label']), bv(case['run']), bv(case['tid']))
     if kind == 'madd':
-        return bv(case['self']).madd(bv(case['mul']), bv(case['add']))
+        recv = bv(case['self'])
+        if case.get('mul') is None:
+            return recv.madd()
+        if case.get('add') is None:
+            return recv.madd(bv(case['mul']))
+        return recv.madd(bv(case['mul']), bv(case['add']))
     if kind == 'muladd_new':
-        return MulAdd.new(bv(case['self']), bv(case['mul']), bv(case['add']))
+        recv = bv(case['self'])
+        return MulAdd.new(recv, bv(case['mul']), bv(case['add']))
     if kind == 'out_ar':
-        return getattr(iou, case.get('cls', 'Out')).ar(bv(case['bus']), bv(case['output']))
+        bus = bv(case['bus'])
+        return getattr(iou, case.get('cls', 'Out')).ar(bus, bv(case['output']))
     if kind == 'out_kr':
-        return getattr(iou, case.get('cls', 'Out')).kr(bv(case['bus']), bv(case['output']))
+        bus = bv(case['bus'])
+        return getattr(iou, case.get('cls', 'Out')).kr(bus, bv(case['output']))
     raise ValueError(kind)
 
 
@@ -164,11 +205,23 @@ def run_case(case):
         sd = _m.main._current_synthdef
         try:
             pre = make_prelude(case['pre'])
+            built, snaps, memo = [], [], ({} if case.get('share') else None)
+
+            def record(t):
+                v = build_value(t, pre, memo)
+                built.append(v)
+                snaps.append(snap(v))          # as handed to the library
+                return v
             try:
-                r = call(case, pre)
+                r = call(case, pre, record)
+                if case.get('twice'):
+                    # the same argument OBJECTS a second time (a ChannelList reused across calls)
+                    it = iter(list(built))
+                    r = call(case, pre, lambda t: next(it))
                 box['r'] = r
             except Exception as e:        # noqa
                 box['e'] = e
+            box['mutated'] = [snap(v) for v in built] != snaps
             box['children'] = list(sd._children)
         finally:
             pass
@@ -188,9 +241,9 @@ def run_case(case):
     if 'e' in box:
         e = box['e']
         name = type(e).__name__
-        return {'res': None, 'err': [ERR.get(name, 8), name + ': ' + str(e)[:200]], 'units': units, 'top': ''}
+        return {'res': None, 'err': [ERR.get(name, 8), name + ': ' + str(e)[:200]], 'units': units, 'top': '', 'mutated': box.get('mutated', False)}
     r = box['r']
-    return {'res': canon(r, index), 'err': None, 'units': units, 'top': type(r).__name__}
+    return {'res': canon(r, index), 'err': None, 'units': units, 'top': type(r).__name__, 'mutated': box.get('mutated', False)}
 
 
 def main():
